@@ -98,6 +98,7 @@ def suite_wertheim(ctx, case):
         d = p.sys.domain
         if contact_misplaced(d.r, dd):
             ctx.dist['wertheim:skipped-contact-float-noise(F7,C10)'] += 1; return
+        if case.get('sf_first'): pyPRISM.calculate.structure_factor(p)          # post-processing in the other order: S(k) before g(r)
         g = pyPRISM.calculate.pair_correlation(p)[T1, T1]
         first = int(np.argmax(d.r > dd * (1.0 + 1e-9)))
         e_contact.append(abs(g[first] - contact) / contact)
@@ -157,6 +158,7 @@ def suite_dilute(ctx, case):
         Uref = mk_pot(case['pot']); Uref.sigma = 1.0
         with np.errstate(all='ignore'):
             u = Uref.calculate(d.r) / kT
+        if case.get('sf_first'): pyPRISM.calculate.structure_factor(p)
         g = pyPRISM.calculate.pair_correlation(p)[T1, T1]
         if clo == 'msa':
             want = np.where(d.r > 1.0, 1.0 - u, 0.0)
@@ -227,7 +229,7 @@ def generate(ctx):
     for eta in etas:
         rmax = rng.choice([12.8, 16.0, 15.4, 13.2])
         N0 = rng.choice([128, 160]) if rmax == 16.0 else 128 if rmax == 12.8 else 154 if rmax == 15.4 else 132      # 154 = 2*7*11, 132 = 4*3*11: not 5-smooth
-        case = {'eta': eta, 'rmax': rmax, 'N0': N0, 'Ns': [N0, 2 * N0] + ([] if ctx.quick() else [4 * N0]), 'hc': rng.random() < 0.5, 'd': rng.choice([1.0, 0.8, 1.25, 2.0])}
+        case = {'eta': eta, 'rmax': rmax, 'N0': N0, 'Ns': [N0, 2 * N0] + ([] if ctx.quick() else [4 * N0]), 'hc': rng.random() < 0.5, 'd': rng.choice([1.0, 0.8, 1.25, 2.0]), 'sf_first': rng.random() < 0.5}
         ctx.case('wertheim', case, True, tags=['eta:%g' % eta, 'hc:%s' % case['hc']]); suite_wertheim(ctx, case)
     for _ in range(ctx.n(3, 20)):
         case = {'etas': sorted(rng.sample([0.05, 0.1, 0.15, 0.2, 0.25, 0.3, 0.35], 3)), 'N': 128, 'dr': rng.choice([0.1, 0.125]), 'reverse': rng.random() < 0.5}
@@ -240,7 +242,7 @@ def generate(ctx):
         hc = True if clo == 'msa' else (rng.random() < 0.5 if hard else False)
         if clo == 'msa' and not hard: continue
         kT = rng.choice([0.7, 1.0, 2.5])
-        case = {'pot': pot, 'clo': clo, 'hc': hc, 'kT': kT, 'grids': [[128, 0.1], [256, 0.05]], 'kT_assign': rng.random() < 0.5, 'rho': rng.choice([1e-6, 1e-9, 1e-12, 1e-18, 1e-18, 1e-20])}
+        case = {'pot': pot, 'clo': clo, 'hc': hc, 'kT': kT, 'grids': [[128, 0.1], [256, 0.05]], 'kT_assign': rng.random() < 0.5, 'sf_first': rng.random() < 0.4, 'rho': rng.choice([1e-6, 1e-9, 1e-12, 1e-18, 1e-18, 1e-20])}
         ctx.case('dilute', case, True, tags=['pot:' + pot[0], 'clo:' + clo, 'kT:%g' % kT]); suite_dilute(ctx, case)
     for _ in range(ctx.n(40, 300)):
         sd = G.gen_system(rng, maxn=1, maxL=32)
